@@ -83,10 +83,15 @@ type fnSpec struct {
 	// round3: sequential `if` / `switch` statements whose branches fall through are translated with a join point
 	// (the continuation is emitted once) instead of being duplicated into every branch
 	round3 bool
+	// fourth round (eval.go)
+	// outParam: name of a slice parameter whose ELEMENTS the function assigns (never the slice itself, never append): a
+	// function without results then returns the parameter's final value, and a call statement `f(.., x[:])` / `f(.., x)`
+	// is `let x := f .. x` (computeInfluence(c, mine, out))
+	outParam string
 }
 
 // groups in file order; a function may only call functions of its own or an earlier group
-var groups = []string{"", "Tak", "Over", "Move", "Sym", "AI", "FPA", "Eval", "Pos", "Road", "MoveGen", "SymMove", "Prove", "Apply"}
+var groups = []string{"", "Tak", "Over", "Move", "Sym", "AI", "FPA", "Eval", "Pos", "Road", "MoveGen", "SymMove", "Prove", "Apply", "Threat", "Heur"}
 
 var whitelist = []fnSpec{
 	{dir: "bitboard", file: "bits.go", name: "Precompute", lean: "precompute"},
@@ -199,8 +204,13 @@ func init() {
 		whitelist3[i].round2 = true
 		whitelist3[i].round3 = true
 	}
+	for i := range whitelist4 {
+		whitelist4[i].round2 = true
+		whitelist4[i].round3 = true
+	}
 	whitelist = append(whitelist, whitelist2...)
 	whitelist = append(whitelist, whitelist3...)
+	whitelist = append(whitelist, whitelist4...)
 }
 
 // accessors: methods of abstract (non-translatable) parameters that may be read like a field.
@@ -316,6 +326,7 @@ type fnInfo struct {
 	globals  []string // package-level variables it reads (leading parameters g_<name>)
 	variadic bool
 	mutParam int // index of the parameter whose pointee the function assigns (-1: none); the function then has no Go result
+	outParam int // index of the slice parameter whose final value the function returns (-1: none; eval.go)
 }
 
 type viewInfo struct {
@@ -343,6 +354,7 @@ type closureInfo struct {
 	lean    string
 	outer   []string
 	outerTy []ltype
+	opt     bool // Option-valued (index reads, general loops: eval.go)
 }
 
 type generator struct {
@@ -385,6 +397,10 @@ type tr struct {
 	retMut  *absParam                // the parameter a `*T` result returns
 	voidMut *absParam                // function without results assigning through this parameter
 	resT    string                   // Lean text of the result type (without Option)
+	// fourth round (eval.go)
+	absAlias        map[types.Object]*absAliasT // `x := p.Analysis()`: x stands for the field path p.analysis
+	outVar          string                      // Lean name of the out-parameter (fnSpec.outParam)
+	closureNeedsOpt bool                        // the closure just translated needs an Option result
 }
 
 // nm: the Lean name of the variable an identifier denotes
@@ -731,6 +747,9 @@ func (t *tr) declareViewList(a *absParam, ty types.Type, decl string, kind strin
 					t.err2("view %s.%s: not an array", a.name, ps)
 					return
 				}
+				if comp == "[all]" {
+					continue // the whole array (eval.go): reads with a non-constant index
+				}
 				cur = arr.Elem()
 				continue
 			}
@@ -777,7 +796,7 @@ func (t *tr) expr(e ast.Expr) string {
 		if e.Name == "true" || e.Name == "false" {
 			return e.Name
 		}
-		if t.absOf(e) != nil {
+		if t.absOf(e) != nil || t.isAbsAlias(e) {
 			t.fail(e, "abstract parameter %s used as a value", e.Name)
 			return "?"
 		}
@@ -799,8 +818,8 @@ func (t *tr) expr(e ast.Expr) string {
 		return t.nm(e)
 	case *ast.SelectorExpr:
 		root, path := selPath(e)
-		if a := t.absOf(root); a != nil {
-			return t.view(a, path, t.typeOf(e))
+		if a, full := t.absSel(root, path); a != nil {
+			return t.view(a, full, t.typeOf(e))
 		}
 		if id, ok := e.X.(*ast.Ident); ok {
 			if _, isLocal := t.locals[id.Name]; isLocal {
@@ -827,6 +846,11 @@ func (t *tr) expr(e ast.Expr) string {
 			}
 			arr, nat, _ := t.indexParts(e)
 			return "(" + arr + ".getD " + nat + " " + zeroOf(t.typeOf(e)) + ")"
+		}
+		if a != nil {
+			if out, ok := t.absArrayIndex(a, e); ok {
+				return out
+			}
 		}
 		if a == nil || itv.Value == nil {
 			t.fail(e, "index expression (only constant indices into an abstract array parameter)")
@@ -893,6 +917,9 @@ func (t *tr) expr(e ast.Expr) string {
 		if t.reuseSlice(e) {
 			return "#[]"
 		}
+		if t.fullSlice(e) {
+			return t.expr(e.X) // `x[:]`: the same elements (value semantics; aliasing is refused by checkAliasing)
+		}
 		if e.Low == nil || e.High != nil || e.Max != nil || !t.isArr(e.X) {
 			t.fail(e, "slice expression (only s[a:])")
 			return "?"
@@ -938,6 +965,13 @@ func (t *tr) call(e *ast.CallExpr) string {
 	case *ast.Ident:
 		fnObj = t.p.info.Uses[f]
 		if ci, ok := t.closures[fnObj]; ok {
+			if ci.opt && t.hoisting != e {
+				if name, ok := t.hoisted[e]; ok {
+					return name
+				}
+				t.fail(e, "call of the closure %s, which may panic / not terminate", f.Name)
+				return "?"
+			}
 			args := append([]string{}, ci.outer...)
 			for i, o := range ci.outer {
 				if i < len(ci.outerTy) {
@@ -1067,6 +1101,10 @@ func (t *tr) call(e *ast.CallExpr) string {
 			return "?"
 		}
 		for _, v := range pi.views {
+			if out, ok := t.viewThroughAll(ab, v, callee.spec.dir); ok {
+				args = append(args, out)
+				continue
+			}
 			args = append(args, t.view(ab, v.path, v.ty))
 		}
 	}
@@ -1449,6 +1487,9 @@ func (t *tr) stmt1cps(s ast.Stmt, tail []ast.Stmt, ret func() string, cont func(
 		if out, ok := t.mutCall(s, cont); ok {
 			return out
 		}
+		if out, ok := t.outCall(s, cont); ok {
+			return out
+		}
 		t.fail(s, "expression statement")
 		return "?"
 	case *ast.DeclStmt:
@@ -1544,6 +1585,12 @@ func (t *tr) stmt1cps(s ast.Stmt, tail []ast.Stmt, ret func() string, cont func(
 				return "?"
 			}
 			return t.emitCopy(s, dst, src) + cont()
+		}
+		if isAlias, ok := t.pathAccessorDef(s); isAlias {
+			if !ok {
+				return "?"
+			}
+			return cont()
 		}
 		if fl, ok := s.Rhs[0].(*ast.FuncLit); ok {
 			id, isId := s.Lhs[0].(*ast.Ident)
@@ -1702,6 +1749,9 @@ func (t *tr) stmt1cps(s ast.Stmt, tail []ast.Stmt, ret func() string, cont func(
 	case *ast.ForStmt:
 		// first-round shapes keep their first-round translation (the bridges are written against it)
 		if s.Init == nil && s.Post == nil && s.Cond == nil {
+			if ownBreak(s.Body) {
+				return t.newLoop(s, cont) // `for { .. break .. }`: a general loop whose condition is `true` (eval.go)
+			}
 			return t.foreverLoop(s)
 		}
 		if !t.needsNew(s.Body) && !t.opt {
@@ -2021,18 +2071,33 @@ func (t *tr) foreverLoop(s *ast.ForStmt) string {
 // parameters are the captured variables.  Go captures by reference: only variables that are never reassigned anywhere
 // in the enclosing function may be captured (then by-reference and by-value coincide).
 func (t *tr) localClosure(id *ast.Ident, fl *ast.FuncLit) {
+	h, ci := t.localClosure1(id, fl, false)
+	if t.err != nil && t.closureNeedsOpt {
+		// the closure reads an index / runs a general loop: Option-valued (eval.go), as for whole functions
+		t.err, t.closureNeedsOpt = nil, false
+		h, ci = t.localClosure1(id, fl, true)
+	}
+	if t.err != nil {
+		return
+	}
+	t.helpers = append(t.helpers, h)
+	t.closures[t.p.info.Defs[id]] = ci
+}
+
+func (t *tr) localClosure1(id *ast.Ident, fl *ast.FuncLit, forceOpt bool) (string, closureInfo) {
 	if t.fnBody == nil {
 		t.fail(fl, "function literal here")
-		return
+		return "", closureInfo{}
 	}
+	// the closure shares the abstract parameters of the enclosing function: a view it reads becomes a leading
+	// parameter of the helper (views of parameters the function assigns through are refused below)
 	ct := &tr{g: t.g, p: t.p, spec: t.spec, group: t.group, structs: t.structs, locals: map[string]*types.Struct{},
-		abs: map[types.Object]*absParam{}, closures: t.closures, fnBody: nil,
-		hoisted: map[*ast.CallExpr]string{}, loopDone: map[ast.Stmt]string{}, globals: map[string]ltype{}, names: t.names, ndup: t.ndup, mutInit: map[string]bool{}, alias: map[types.Object]*aliasT{}}
+		abs: t.abs, closures: t.closures, fnBody: nil, absAlias: t.absAlias,
+		hoisted: map[*ast.CallExpr]string{}, loopDone: map[ast.Stmt]string{}, globals: map[string]ltype{}, names: t.names, ndup: t.ndup, mutInit: t.mutInit, alias: map[types.Object]*aliasT{}}
 	ct.spec.lean = t.spec.lean + "_" + id.Name
-	if panics, forever := ct.scanShape(fl.Body); panics || forever {
-		t.fail(fl, "closure with panic / unbounded loop")
-		return
-	}
+	ct.spec.outParam = ""
+	panics, forever := ct.scanShape(fl.Body)
+	ct.opt = panics || forever || forceOpt
 	// captured variables
 	captured := map[string]ltype{}
 	capObj := map[types.Object]bool{}
@@ -2048,9 +2113,8 @@ func (t *tr) localClosure(id *ast.Ident, fl *ast.FuncLit) {
 		if obj.Pos() >= fl.Pos() && obj.Pos() < fl.End() {
 			return true
 		}
-		if t.abs[obj] != nil {
-			t.fail(x, "closure reads the abstract parameter %s", x.Name)
-			return true
+		if t.abs[obj] != nil || t.absAlias[obj] != nil {
+			return true // read through its views (recorded while the body is translated)
 		}
 		if _, isLocal := t.locals[x.Name]; isLocal {
 			t.fail(x, "closure reads the local struct %s", x.Name)
@@ -2079,19 +2143,23 @@ func (t *tr) localClosure(id *ast.Ident, fl *ast.FuncLit) {
 			targets = []ast.Expr{n.X}
 		}
 		for _, l := range targets {
-			if root, _ := selPath(l); root != nil && capObj[t.p.info.Uses[root]] {
+			if root, _ := selPath(stripIndex(l)); root != nil && capObj[t.p.info.Uses[root]] {
 				t.fail(l, "variable %s is captured by a closure and reassigned", root.Name)
 			}
 		}
 		return true
 	})
 	if t.err != nil {
-		return
+		return "", closureInfo{}
 	}
 	ps, rt, pre := ct.signature(nil, fl.Type)
 	seen := map[string]types.Object{}
 	if ct.err == nil {
 		ct.checkNames(fl, seen)
+	}
+	if ct.err == nil {
+		csig, _ := t.p.info.Types[fl].Type.(*types.Signature)
+		ct.checkAliasingBody(fl.Body, csig, fl.Type)
 	}
 	for name := range seen {
 		if _, clash := captured[safe(name)]; clash {
@@ -2099,6 +2167,8 @@ func (t *tr) localClosure(id *ast.Ident, fl *ast.FuncLit) {
 		}
 	}
 	body := ""
+	frame := map[string]useInfo{}
+	ct.uses = append(ct.uses, frame)
 	if ct.err == nil {
 		body = pre + ct.stmts(fl.Body.List, func() string {
 			ct.fail(fl, "control reaches the end of the closure without return")
@@ -2112,7 +2182,22 @@ func (t *tr) localClosure(id *ast.Ident, fl *ast.FuncLit) {
 	}
 	if ct.err != nil {
 		t.err = ct.err
-		return
+		if ct.needOpt && !ct.opt {
+			t.closureNeedsOpt = true
+		}
+		return "", closureInfo{}
+	}
+	// the views of abstract parameters the body reads
+	for _, k := range sortedUseKeys(frame) {
+		tracked, known := t.isTrackedName(k)
+		if !known {
+			continue
+		}
+		if tracked {
+			t.fail(fl, "closure reads %s, a field of a parameter the function assigns through", k)
+			return "", closureInfo{}
+		}
+		captured[k] = frame[k].ty
 	}
 	for _, n := range ct.sorder {
 		t.sorder = append(t.sorder, n)
@@ -2126,14 +2211,21 @@ func (t *tr) localClosure(id *ast.Ident, fl *ast.FuncLit) {
 	}
 	own, _ := ct.paramList(ps)
 	lean := t.spec.lean + "_" + id.Name
+	resT := rt.lean()
 	h := ""
 	for _, hh := range ct.helpers {
 		h += hh + "\n"
 	}
 	sig := strings.TrimSpace(strings.Join(capParams, " ") + " " + own)
-	h += fmt.Sprintf("def %s %s : %s :=\n%s\n", lean, sig, rt.lean(), indent(body))
-	t.helpers = append(t.helpers, h)
-	t.closures[t.p.info.Defs[id]] = closureInfo{lean: lean, outer: capArgs, outerTy: capTys}
+	full := resT
+	if ct.opt {
+		full = "Option (" + resT + ")"
+	}
+	h += fmt.Sprintf("def %s %s : %s :=\n%s\n", lean, sig, full, indent(body))
+	// early returns inside the closure's loops return the closure's result, not the enclosing function's
+	h = strings.ReplaceAll(h, "Option RESULT", "Option ("+resT+")")
+	h = strings.ReplaceAll(h, "(RESULT)", "("+resT+")")
+	return h, closureInfo{lean: lean, outer: capArgs, outerTy: capTys, opt: ct.opt}
 }
 
 func findFunc(p *pkgInfo, spec fnSpec) *ast.FuncDecl {
@@ -2280,6 +2372,18 @@ func (t *tr) signature(recv *ast.FieldList, ft *ast.FuncType) (ps []sigParam, rt
 			t.voidMut = a
 			return ps, t.mutType(a), ""
 		}
+		if t.spec.outParam != "" {
+			// a function that assigns the elements of a slice parameter returns its final value (eval.go)
+			for _, sp := range ps {
+				if !sp.abstract && !sp.skip && sp.obj != nil && sp.obj.Name() == t.spec.outParam && sp.ty.c == tArr && sp.ty.alen < 0 {
+					t.outVar = sp.name
+					t.named = []string{sp.name}
+					return ps, sp.ty, ""
+				}
+			}
+			t.fail(ft, "out-parameter %s: no slice parameter of that name", t.spec.outParam)
+			return
+		}
 		t.fail(ft, "no result")
 		return
 	}
@@ -2385,7 +2489,7 @@ func newTr(g *generator, p *pkgInfo, spec fnSpec, group int) *tr {
 	return &tr{g: g, p: p, spec: spec, group: group, structs: map[string]*types.Struct{}, locals: map[string]*types.Struct{},
 		abs: map[types.Object]*absParam{}, closures: map[types.Object]closureInfo{},
 		hoisted: map[*ast.CallExpr]string{}, loopDone: map[ast.Stmt]string{}, globals: map[string]ltype{},
-		names: map[types.Object]string{}, ndup: map[string]int{}, mutInit: map[string]bool{}, alias: map[types.Object]*aliasT{}}
+		names: map[types.Object]string{}, ndup: map[string]int{}, mutInit: map[string]bool{}, alias: map[types.Object]*aliasT{}, absAlias: map[types.Object]*absAliasT{}}
 }
 
 func (g *generator) function1(p *pkgInfo, spec fnSpec, group int, fd *ast.FuncDecl, forceOpt bool) (string, *tr) {
@@ -2405,6 +2509,9 @@ func (g *generator) function1(p *pkgInfo, spec fnSpec, group int, fd *ast.FuncDe
 	if t.err == nil {
 		t.checkAliasing(fd)
 	}
+	if t.err == nil {
+		t.checkOutParam(fd)
+	}
 	body := ""
 	if t.err == nil {
 		body = pre + t.stmts(fd.Body.List, func() string {
@@ -2413,6 +2520,9 @@ func (g *generator) function1(p *pkgInfo, spec fnSpec, group int, fd *ast.FuncDe
 			}
 			if t.voidMut != nil {
 				return t.retVal(t.mutValue(fd, t.voidMut))
+			}
+			if t.outVar != "" && fd.Type.Results == nil {
+				return t.retVal(t.outVar)
 			}
 			t.fail(fd, "control reaches the end of the function without return")
 			return "?"
@@ -2441,7 +2551,15 @@ func (g *generator) function1(p *pkgInfo, spec fnSpec, group int, fd *ast.FuncDe
 	if sig, ok := p.info.Defs[fd.Name].Type().(*types.Signature); ok {
 		variadic = sig.Variadic()
 	}
-	g.done[specKey(spec)] = &fnInfo{spec: spec, group: group, opt: t.opt, params: infos, globals: t.globalNames(), variadic: variadic, mutParam: mutIdx}
+	outIdx := -1
+	if t.outVar != "" {
+		for i, sp := range ps {
+			if !sp.abstract && !sp.skip && sp.obj != nil && sp.obj.Name() == spec.outParam {
+				outIdx = i
+			}
+		}
+	}
+	g.done[specKey(spec)] = &fnInfo{spec: spec, group: group, opt: t.opt, params: infos, globals: t.globalNames(), variadic: variadic, mutParam: mutIdx, outParam: outIdx}
 	pos := p.fset.Position(fd.Pos())
 	def := fmt.Sprintf("/-- %s/%s:%d `%s` -/\n", spec.dir, spec.file, pos.Line, spec.name)
 	resT := rt.lean()
@@ -2510,7 +2628,7 @@ func (g *generator) closureTable(p *pkgInfo, spec fnSpec, group int, fd *ast.Fun
 		}
 		ct := &tr{g: g, p: p, spec: spec, group: group, structs: t.structs, locals: map[string]*types.Struct{},
 			abs: map[types.Object]*absParam{}, closures: t.closures,
-			hoisted: map[*ast.CallExpr]string{}, loopDone: map[ast.Stmt]string{}, globals: map[string]ltype{}, names: t.names, ndup: t.ndup, mutInit: map[string]bool{}, alias: map[types.Object]*aliasT{}}
+			hoisted: map[*ast.CallExpr]string{}, loopDone: map[ast.Stmt]string{}, globals: map[string]ltype{}, names: t.names, ndup: t.ndup, mutInit: map[string]bool{}, alias: map[types.Object]*aliasT{}, absAlias: map[types.Object]*absAliasT{}}
 		ct.spec.lean = spec.lean + "_" + id.Name
 		panics, forever := ct.scanShape(fl.Body)
 		if panics || forever {
@@ -2600,7 +2718,7 @@ func (g *generator) closureTable(p *pkgInfo, spec fnSpec, group int, fd *ast.Fun
 	own, _ := t.paramList(first.params)
 	def += fmt.Sprintf("/-- %s/%s:%d `%s`: element `k` of the returned slice, applied -/\n", spec.dir, spec.file, pos.Line, spec.name)
 	def += fmt.Sprintf("def %s %s (k : Fin %d) %s : %s :=\n  match k with\n%s\n", spec.lean, outerParams, len(cl.Elts), own, first.rt.lean(), strings.Join(arms, "\n"))
-	g.done[specKey(spec)+"#table"] = &fnInfo{spec: spec, group: group}
+	g.done[specKey(spec)+"#table"] = &fnInfo{spec: spec, group: group, mutParam: -1, outParam: -1}
 	return def, t
 }
 
